@@ -115,6 +115,13 @@ func verifDir() string {
 	return "/verif"
 }
 
+func outDir() string {
+	if d := os.Getenv("VERIF_OUT"); d != "" {
+		return d
+	}
+	return verifDir()
+}
+
 func loadKnown(id string) []known {
 	f, err := os.Open(filepath.Join(verifDir(), "KNOWN_FINDINGS.txt"))
 	if err != nil {
@@ -430,7 +437,7 @@ func oneLine(s string, max int) string {
 }
 
 func writeReplay(id, tier string, f *found) string {
-	dir := filepath.Join(verifDir(), "replays")
+	dir := filepath.Join(outDir(), "replays")
 	_ = os.MkdirAll(dir, 0o755)
 	h := sha1.Sum(append([]byte(f.v.Sig+"\x00"), f.c...))
 	p := filepath.Join(dir, fmt.Sprintf("%s-%s.json", id, hex.EncodeToString(h[:6])))
@@ -535,7 +542,7 @@ func writeEvidence[C any](s Spec[C], tier string, seed int64, st *Stats, samples
 		"wall_s":      wall,
 		"violations":  nViol,
 	}
-	dir := filepath.Join(verifDir(), "evidence")
+	dir := filepath.Join(outDir(), "evidence")
 	_ = os.MkdirAll(dir, 0o755)
 	b, _ := json.MarshalIndent(ev, "", " ")
 	_ = os.WriteFile(filepath.Join(dir, s.ID+".json"), append(b, '\n'), 0o644)
